@@ -125,6 +125,30 @@ pub fn run(ctx: &mut Ctx) {
             }
         }
     }
+    // size probes: long operand lists with a position-sensitive pattern (one odd operand at k)
+    for n in al::size_classes(ctx.tier_thorough) {
+        if !ctx.mine() {
+            continue;
+        }
+        let step = if n > 40 { n / 11 + 1 } else { 1 };
+        for odd in [json!("12px"), json!(0.5), json!("a"), json!(9007199254740993u64), json!([3]), json!(-1e308)] {
+            let mut k = 0;
+            while k < n {
+                ctx.edge();
+                let args: Vec<Value> = (0..n).map(|i| if i == k { odd.clone() } else if i % 3 == 0 { json!(1) } else if i % 3 == 1 { json!("2") } else { json!(1.5) }).collect();
+                for kk in VARIADIC {
+                    ctx.check(&format!("{}:size-probe", kk), &op(kk, args.clone()), &null);
+                }
+                k += step;
+            }
+        }
+        // all through var: one long data array
+        let data: Vec<Value> = (0..n).map(|i| json!(i as f64 * 0.25 - 3.0)).collect();
+        let args: Vec<Value> = (0..n).map(|i| json!({"var": i})).collect();
+        for kk in VARIADIC {
+            ctx.check(&format!("{}:size-probe:V", kk), &op(kk, args.clone()), &Value::Array(data.clone()));
+        }
+    }
     // length 4, 5
     let s = small();
     for x in &s {
